@@ -77,7 +77,7 @@ CHECKS = {
             "Checksum-forging inputs are not generated; damage to already-applied log files and to the anchor record of a non-last file is the recorded known finding.",
             "DESIGN.md 4 C13", "pdbv"),
     "C16": ("fault_enumeration",
-            "fault enumeration: every file-operation index of every pipeline step of generated histories fails (and keeps failing) via the library's injector; oracle: error reported by the failing call, no panic incl. drop, reads == model of all commits, restart recovers a prefix >= synced and accepts commits",
+            "fault enumeration: every file-operation index of every pipeline step of generated histories fails (and keeps failing) via the library's injector; oracle: error reported by the failing call, no panic incl. drop, reads == model of all commits, restart recovers a prefix >= synced and accepts commits; plus a threaded part under shuttle: real worker loops, fault from the n-th file operation of ANY worker on, x seeded schedules",
             "All fault positions inside each op of each generated history (sampled above a cap); differs from C02 in that the handle survives the fault, must keep serving reads, must report the error, and the SAME directory is reopened after the fault is gone.",
             "Injector = the library's try_io! sites on the calling thread (stepping mode); reads are issued with the injector paused.",
             "DESIGN.md 4 C16", "pdbv"),
@@ -149,7 +149,7 @@ def main():
         "engines": [
             {"name": "pdbv", "path": "harness", "serves_properties": [c["property_id"] for c in checks if c["engine"] == "pdbv"],
              "kind_free_text": "proptest-driven model-based / fault-enumeration harness (std threads, stepping API, crash images, raw layout reader)"},
-            {"name": "pdbv-shuttle", "path": "shuttle", "serves_properties": [c["property_id"] for c in checks if c["engine"] == "pdbv-shuttle"] + (["C11"] if any(c["property_id"] == "C11" for c in checks) else []),
+            {"name": "pdbv-shuttle", "path": "shuttle", "serves_properties": [c["property_id"] for c in checks if c["engine"] == "pdbv-shuttle"] + [x for x in ("C11", "C16") if any(c["property_id"] == x for c in checks)],
              "kind_free_text": "shuttle randomized/PCT schedules over parity-db built with feature loom (loom -> shuttle shim), real worker loops via verif hooks"},
             {"name": "fuzz", "path": "fuzz", "serves_properties": [c["property_id"] for c in checks if c["engine"] == "fuzz"],
              "kind_free_text": "cargo-fuzz (libFuzzer, ASan) targets"},
